@@ -113,3 +113,15 @@ def jose(repo):
     lines.append("")
     lines.append("end Generated.Jose")
     return "\n".join(lines) + "\n"
+
+
+@emitter("Flows.lean")
+def flows(repo):
+    """C19: the event scripts of the protocol flows, traced on the real code (fault-free, success paths)"""
+    import flows as F
+    rows = []
+    for name in F.scenarios():
+        ev, _, _ = F.trace(name)
+        rows.append(f"  ({lean_str(name)}, {lean_str_list(ev)})")
+    return ("namespace Generated.Flows\n\n/-- flow name ↦ events of one fault-free request: storage callbacks in invocation order, \"gen\", \"respond\" -/\n"
+            "def flows : List (String × List String) := [\n" + ",\n".join(rows) + "]\n\nend Generated.Flows\n")
